@@ -10,7 +10,11 @@
             ECH draws cut out of the observed bytes) and must return Hello.Raw byte for byte.
    CShuffle : the real ShuffleChromeTLSExtensions on a generated list; swap calls
             recomputed from the seed the function drew; the model must give the same order.
-   CDraw  : one more UTLSIdToSpec(id) result against the table entry (draw_ok). *)
+   CDraw  : one more UTLSIdToSpec(id) result against the table entry (draw_ok); also used for the specs
+            obtained while crypto/rand.Reader is made to fail.
+   CShufflePost : shuffle under an entropy fault, against the proven postcondition.
+   The cfg of CHello/CBuild carries the caller's Config.MinVersion/MaxVersion/NextProtos: the oracle and the
+   model ignore them, i.e. the wire must not depend on them. *)
 From Coq Require Export Uint63.
 From UV Require Export Base.Common Model.Wire Model.Ext Model.ExtSpec Model.Shuffle Model.Preset Model.ParrotSpec.
 From UV Require Gen.Parrots.
@@ -39,12 +43,15 @@ Definition cut (data : bytes) (ol : N * N) : bytes :=
 Record cech := { ce_cfg_byte : N; ce_suite_idx : nat; ce_enc : N * N; ce_plen_idx : nat; ce_payload : N * N }.
 
 Inductive case :=
-| CHello (name sni : bytes) (datalen : N) (data : list Uint63.int)
-| CBuild (name sni : bytes) (omit : bool) (perm : list nat) (grease : bytes)
+| CHello (name : bytes) (c : cfg) (datalen : N) (data : list Uint63.int)
+| CBuild (name : bytes) (c : cfg) (perm : list nat) (grease : bytes)
          (keys : list (N * N)) (echs : list cech)
          (ok : bool) (datalen : N) (data : list Uint63.int)
 | CShuffle (fixed : list bool) (swaps : list (nat * nat)) (panicked : bool) (result : list nat)
-| CDraw (name : bytes) (draw : list sext).
+| CDraw (name : bytes) (draw : list sext)
+(* ShuffleChromeTLSExtensions with crypto/rand.Reader failing: the swap calls come from the global math/rand and
+   cannot be recovered; [check] applies the postcondition C03_shuffle proves for EVERY swap list. *)
+| CShufflePost (fixed : list bool) (result : list nat).
 
 Definition permuted (l : list sext) (perm : list nat) : list sext :=
   map (fun i => nth i l (SExt ESCT)) perm.
@@ -54,12 +61,12 @@ Definition is_perm (n : nat) (perm : list nat) : bool :=
 
 Definition check (c : case) : bool :=
   match c with
-  | CHello name sni datalen dataw =>
+  | CHello name c datalen dataw =>
       match find_parrot name, parse_hello (pk datalen dataw) with
-      | Some p, Some a => ast_matches_specb a p {| c_sni := sni; c_omit_psk := true |}
+      | Some p, Some a => ast_matches_specb a p c
       | _, _ => false
       end
-  | CBuild name sni omit perm grease keys echs ok datalen dataw =>
+  | CBuild name c perm grease keys echs ok datalen dataw =>
       match find_parrot name with
       | None => false
       | Some p =>
@@ -74,11 +81,11 @@ Definition check (c : case) : bool :=
                                                ed_plen_idx := ce_plen_idx e; ed_payload := cut data (ce_payload e) |}) echs |} in
         is_perm (length (sp_exts sp0)) perm &&
         (* the premise of C03_generic_exts holds on this connection *)
-        match apply_preset sp {| c_sni := sni; c_omit_psk := omit |} fr with
+        match apply_preset sp c fr with
         | Ok he => negb ok || forallb wf_ext (snd he)
         | _ => true
         end &&
-        match build sp {| c_sni := sni; c_omit_psk := omit |} fr with
+        match build sp c fr with
         | Ok b => ok && bytes_eqb b data
         | Err _ => negb ok
         | Panic _ => false
@@ -87,12 +94,12 @@ Definition check (c : case) : bool :=
            of the model's extension values (padding in the state the wire shows), and the conclusion of
            C03_generic evaluated on the parsed bytes against this connection's own spec order *)
         (negb ok ||
-         match apply_preset sp {| c_sni := sni; c_omit_psk := omit |} fr, parse_hello data with
+         match apply_preset sp c fr, parse_hello data with
          | Ok he, Some a =>
              let pad := find (fun w => fst w =? ID_PADDING) (a_exts a) in
              let es := map (match pad with Some w => set_pad (blen (snd w)) true | None => set_pad 0 false end) (snd he) in
              list_eqb (fun x y => (fst x =? fst y) && bytes_eqb (snd x) (snd y)) (a_exts a) (wire_of es)
-             && ast_matches_specb a {| p_name := name; p_spec := sp; p_shuffles := false |} {| c_sni := sni; c_omit_psk := omit |}
+             && ast_matches_specb a {| p_name := name; p_spec := sp; p_shuffles := false |} c
          | _, _ => false
          end)
       end
@@ -103,6 +110,10 @@ Definition check (c : case) : bool :=
       | Panic _ => panicked
       | Err _ => false
       end
+  | CShufflePost fixed result =>
+      is_perm (length fixed) result &&
+      list_match (fun (i : nat) (r : nat) => if nth i fixed false || nth r fixed false then Nat.eqb i r else true)
+                 (seq 0 (length fixed)) result
   | CDraw name d =>
       match find_parrot name with
       | Some p => draw_ok (sp_exts (p_spec p)) d && (p_shuffles p || list_eqb sext_eqb (sp_exts (p_spec p)) d)
